@@ -12,6 +12,7 @@ Variable nvar : bytes -> option bytes.
 
 Notation sec_ok := (sec_ok dec enc u2s s2u nvar).
 Notation file_ok := (file_ok dec enc u2s s2u nvar).
+Notation file_ok_b := (file_ok_b dec enc u2s s2u nvar).
 Notation vol_ok := (vol_ok dec enc u2s s2u nvar).
 Notation wf_s := (wf_s u2s s2u).
 Notation wf_f := (wf_f u2s s2u).
@@ -27,7 +28,7 @@ Proof.
 Qed.
 
 Fixpoint s_ok (s : sspec) : wf_s s -> sec_ok (emit_s s)
-with f_ok (f : fspec) : wf_f f -> file_ok (emit_f f)
+with f_ok (f : fspec) : wf_f f -> file_ok_b (is_big f) (emit_f f)
 with v_ok (v : vspec) : wf_v v -> vol_ok (emit_v v).
 Proof.
   - destruct s as [t body|g attrs extra payload|p|build p|t ops|v]; cbn [wf_s emit_s FfsGrammar.wf_s];
@@ -38,26 +39,39 @@ Proof.
     + destruct W as (A & B & C & D & E). apply sec_ok_version; auto.
     + destruct W as (A & B & C). apply sec_ok_depex; auto.
     + destruct W as (A & B). apply sec_ok_fv; [apply v_ok; exact A|exact B].
-  - destruct f as [g ckh ckf t attr state body|g ckh ckf t attr state body|g t attr state secs];
-      cbn [wf_f emit_f FfsGrammar.wf_f]; unfold in_range; intros W.
-    + destruct W as (A & B & C & D & E & F & G & H & I & J & K). apply file_ok_opaque; auto.
-    + destruct W as (A & B & C & D & E & F & G & H & I & J & K). apply file_ok_opaque_large; auto.
+  - destruct f as [g ckh ckf t attr state body|g ckh ckf t attr state body|g t attr state secs|g t attr state secs];
+      cbn [wf_f emit_f FfsGrammar.wf_f is_big]; unfold in_range; intros W.
+    + destruct W as (A & B & C & D & E & F & G & H & I & J & K).
+      apply (file_ok_b_false dec enc u2s s2u nvar). apply file_ok_opaque; auto.
+    + destruct W as (A & B & C & D & E & F & G & H & I & J & K).
+      apply (file_ok_b_false dec enc u2s s2u nvar). apply file_ok_opaque_large; auto.
     + destruct W as (A & B & C & D & E & F & G & H & I & J).
+      apply (file_ok_b_false dec enc u2s s2u nvar).
       apply file_ok_sections; auto.
+      * intro Hn. apply H. destruct secs; [reflexivity|discriminate].
+      * rewrite Forall_map. clear - s_ok I.
+        induction secs as [|a r IH]; [constructor|]. cbn [map fold_right] in I. destruct I as [Ia Ir].
+        constructor; [apply s_ok; exact Ia | apply IH; exact Ir].
+    + destruct W as (A & B & C & D & E & F & G & H & I & J & K).
+      apply (file_okL_b_true dec enc u2s s2u nvar).
+      apply file_okL_sections; auto.
       * intro Hn. apply H. destruct secs; [reflexivity|discriminate].
       * rewrite Forall_map. clear - s_ok I.
         induction secs as [|a r IH]; [constructor|]. cbn [map fold_right] in I. destruct I as [Ia Ir].
         constructor; [apply s_ok; exact Ia | apply IH; exact Ir].
   - destruct v as [zero g attrs reserved rev count bsize more xh files free]; cbn [wf_v emit_v FfsGrammar.wf_v];
       unfold in_range; intros W.
-    destruct W as (A & B & C & D & E & F & G & H & I & J & K & L & M & N & X & Y & Z0).
-    apply vol_ok_files_x; auto.
-    { destruct xh as [[[n e] gp]|]; [right|left; split; reflexivity].
-      split; [reflexivity|]. exists n, e, gp. cbn [wf_xh xh_bytes] in *.
-      destruct X as (X1 & X2 & X3 & X4 & X5 & X6 & X7). repeat split; auto. }
-    rewrite Forall_map. clear - f_ok K.
-    induction files as [|a r IH]; [constructor|]. cbn [map fold_right] in K. destruct K as [Ka Kr].
-    constructor; [apply f_ok; exact Ka | apply IH; exact Kr].
+    destruct W as (A & B & C & D & E & F & G & H & I & J & K & L & M & N & X & Y & Z0 & Z1).
+    apply (vol_ok_files_flags dec enc u2s s2u nvar zero g attrs reserved rev count bsize more
+             (xh_eo (fv_hlen more) xh) (xh_bytes xh) (map is_big files)); auto.
+    { destruct xh as [[[[pre n] e] gp]|]; [right|left; split; reflexivity].
+      exists pre, n, e, gp. cbn [wf_xh xh_bytes xh_eo] in *.
+      destruct X as (X0 & X1 & X2 & X3 & X4 & X5 & X6 & X7 & X8 & X9). repeat split; auto. }
+    { clear - f_ok K.
+      induction files as [|a r IH]; [constructor|]. cbn [map fold_right] in K. destruct K as [Ka Kr].
+      cbn [map]. constructor; [apply f_ok; exact Ka | apply IH; exact Kr]. }
+    { intros E1. apply Z1. clear - E1. induction files as [|a r IH]; [discriminate|].
+      cbn [map existsb] in *. destruct (is_big a); [reflexivity|]. cbn [orb] in *. apply IH. exact E1. }
 Qed.
 
 Lemma emit_v_sig v : wf_v v -> sub 40 4 (emit_v v) = FVH /\ 72 <= zlen (emit_v v).
@@ -111,7 +125,7 @@ Proof.
     + apply bytes_eqb_eq in B2. repeat split; auto; lia.
     + repeat split; auto; lia.
     + split; [apply wfb_v_sound; exact H|lia].
-  - destruct f as [g ckh ckf t attr state body|g ckh ckf t attr state body|g t attr state secs];
+  - destruct f as [g ckh ckf t attr state body|g ckh ckf t attr state body|g t attr state secs|g t attr state secs];
       cbn [wfb_f wf_f]; unfold rng, in_range; intros H; split_andb H.
     + repeat match goal with |- _ /\ _ => split end; auto; try lia.
       all: try (destruct ((t =? 1) && bytes_eqb g NVAR_GUID); [discriminate|reflexivity]).
@@ -126,11 +140,18 @@ Proof.
         split; [apply wfb_s_sound; exact Ba|apply IH; exact Br]. }
       repeat match goal with |- _ /\ _ => split end; auto; try lia.
       all: try (destruct secs; [discriminate|congruence]).
+    + assert (Hsecs : fold_right and True (map (wf_s u2s s2u) secs)).
+      { match goal with Hx : forallb _ secs = true |- _ => revert Hx end.
+        clear - wfb_s_sound. induction secs as [|a r IH]; intros Hx; [exact I|]. cbn [forallb] in Hx.
+        apply andb_true_iff in Hx as [Ba Br]. cbn [map fold_right].
+        split; [apply wfb_s_sound; exact Ba|apply IH; exact Br]. }
+      repeat match goal with |- _ /\ _ => split end; auto; try lia.
+      all: try (destruct secs; [discriminate|congruence]).
   - destruct v as [zero g attrs reserved rev count bsize more xh files free]; cbn [wfb_v wf_v]; unfold rng, in_range; intros H;
       split_andb H.
     assert (Hxh : wf_xh (fv_hlen more) xh).
     { match goal with Hx : wfb_xh _ xh = true |- _ => revert Hx end. clear.
-      destruct xh as [[[n e] gp]|]; cbn [wfb_xh wf_xh]; [|intros _; exact I]. intros Hx.
+      destruct xh as [[[[pre n] e] gp]|]; cbn [wfb_xh wf_xh]; [|intros _; exact I]. intros Hx.
       split_andb Hx. repeat split; auto; lia. }
     assert (Hfiles : fold_right and True (map (wf_f u2s s2u) files)).
     { match goal with Hx : forallb _ files = true |- _ => revert Hx end.
@@ -140,6 +161,9 @@ Proof.
     assert (Hg : g = FFS2 \/ g = FFS3).
     { match goal with Hx : bytes_eqb g FFS2 || bytes_eqb g FFS3 = true |- _ =>
         apply orb_true_iff in Hx as [E|E]; apply bytes_eqb_eq in E; auto end. }
+    assert (Hbig : existsb is_big files = true -> g = FFS3).
+    { intros E1. match goal with Hx : negb (existsb is_big files) || bytes_eqb g FFS3 = true |- _ =>
+        rewrite E1 in Hx; cbn [negb orb] in Hx; apply bytes_eqb_eq in Hx; exact Hx end. }
     repeat match goal with |- _ /\ _ => split end; auto; try lia.
     all: try (destruct ((count =? 0) && (bsize =? 0)); [discriminate|reflexivity]).
 Qed.
@@ -155,3 +179,16 @@ Proof.
 Qed.
 
 End B.
+
+(* ---------- the domain of the theorem, decided on arbitrary bytes ---------- *)
+From Fiano Require Import Model.FfsAbstract.
+
+Theorem in_grammar_save_identity dec enc u2s s2u nvar d b :
+  in_grammar dec u2s s2u nvar d b = true ->
+  exists d0, forall d', (d0 <= d')%nat -> save_region dec enc u2s s2u nvar d' b = Ok b.
+Proof.
+  unfold in_grammar.
+  destruct (abstract_region dec u2s nvar d b) as [[l trail]|]; [|discriminate].
+  intros H. apply andb_true_iff in H as [W E]. apply bytes_eqb_eq in E. rewrite <- E.
+  apply grammar_save_identity. apply wfb_region_sound. exact W.
+Qed.
